@@ -211,6 +211,7 @@ def main():
     bounds_used = {}
     distinct_inputs = set()
     witness = {}
+    instance_of = {}
     for hr, h in zip(res["results"], [hh for hh in pr["harnesses"] if not (args.only and args.only not in hh["func"]) and not (tier == "quick" and hh.get("thorough_only"))]):
         if h.get("tag") == "known-finding-witness":
             witness[id(hr)] = True
@@ -248,7 +249,11 @@ def main():
             for bk, bv in (hr["spec"].get("bounds") or {}).items():
                 vec["bound." + bk] = str(bv)
             vec["_pkg"], vec["_harness"], vec["_label"], vec["_kind"] = hr["spec"]["pkg"], name, v["label"], v["kind"]
-            vpath = os.path.join(work, "%s-%d.json" % (name, i))
+            # several instances of one harness function (different bounds) must not share vector files
+            if id(hr) not in instance_of:
+                instance_of[id(hr)] = (name, sum(1 for k in instance_of.values() if k[0] == name))
+            inst = instance_of[id(hr)]
+            vpath = os.path.join(work, "%s-%s%d.json" % (name, ("i%d-" % inst[1]) if inst[1] else "", i))
             with open(vpath, "w") as f:
                 json.dump(vec, f, indent=1)
             if v["kind"] == "overflow":
